@@ -301,6 +301,11 @@ def mdp : P String := do
       | none => v
     let objW := dotN n c w
     let v := v.failIf (decide (objW > opt + tol7 * (1 + absQ opt))) s!"LinearProgramming objective_not_minimal{sfx} objective={ratStr objW} flat_optimum={ratStr opt}"
+    -- model of the tail of operator() (g *= γ·v; plusEqual(g, R)) on the library's own weights vs the returned Q, basis by basis
+    let qM := (qModel S A ddn γ h R w).map ofBM
+    let relClose := fun (a b : BasisM) => a.tag == b.tag && a.atag == b.atag && a.vals.length == b.vals.length &&
+      (a.vals.zip b.vals).all (fun (p, q) => closeQ (1 / 10^11) p q || decide (absQ (p - q) ≤ (1 / 10^11) * (1 + maxAbs w)))
+    let v := v.diffIf (qM.length != Q.length || !((qM.zip Q).all (fun (a, b) => relClose a b))) "LinearProgramming.Q model_differs"
     -- Q = R + γ P V at every joint state and action
     let bad := (allActs S).findSome? (fun s => (allActs A).findSome? (fun a =>
       let qv := fmAt S A Q s a
